@@ -53,7 +53,7 @@ type Client struct {
 	sess *wamp.Session
 
 	responseTimeout time.Duration
-	awaitingReply   map[wamp.ID]chan wamp.Message
+	awaitingReply   map[wamp.ID]*replyWaiter
 
 	eventHandlers map[wamp.ID]EventHandler
 	topicSubID    map[string]wamp.ID
@@ -271,7 +271,7 @@ func NewClient(p wamp.Peer, cfg Config) (*Client, error) {
 		sess: sess,
 
 		responseTimeout: cfg.ResponseTimeout,
-		awaitingReply:   map[wamp.ID]chan wamp.Message{},
+		awaitingReply:   map[wamp.ID]*replyWaiter{},
 
 		eventHandlers: map[wamp.ID]EventHandler{},
 		topicSubID:    map[string]wamp.ID{},
@@ -1353,16 +1353,38 @@ func (c *Client) sendRequest(id wamp.ID, msg wamp.Message) error {
 	if c.send(msg) {
 		return nil
 	}
-	c.sess.Lock()
-	delete(c.awaitingReply, id)
-	c.sess.Unlock()
+	c.forgetReply(id)
 	return ErrNotConn
 }
 
+// replyWaiter is where the receive loop hands the replies to a request over to
+// the API call that waits for them. gone is closed when that call stops
+// waiting (it got its reply, timed out or was canceled), so that a reply
+// arriving at that very moment, or a duplicate reply, does not block the
+// receive loop forever.
+type replyWaiter struct {
+	msgs chan wamp.Message
+	gone chan struct{}
+}
+
 func (c *Client) expectReply(id wamp.ID) {
-	wait := make(chan wamp.Message)
+	wait := &replyWaiter{
+		msgs: make(chan wamp.Message),
+		gone: make(chan struct{}),
+	}
 	c.sess.Lock()
 	c.awaitingReply[id] = wait
+	c.sess.Unlock()
+}
+
+// forgetReply is called by an API call when it stops waiting for replies to
+// its request.
+func (c *Client) forgetReply(id wamp.ID) {
+	c.sess.Lock()
+	if wait, ok := c.awaitingReply[id]; ok {
+		delete(c.awaitingReply, id)
+		close(wait.gone)
+	}
 	c.sess.Unlock()
 }
 
@@ -1372,7 +1394,7 @@ func (c *Client) expectReply(id wamp.ID) {
 // run() goroutine may be blocked waiting for a reply to be read from the
 // awaiting reply channel.
 func (c *Client) waitForReply(id wamp.ID) (wamp.Message, error) {
-	var wait chan wamp.Message
+	var wait *replyWaiter
 	var ok bool
 	c.sess.Lock()
 	wait, ok = c.awaitingReply[id]
@@ -1385,7 +1407,7 @@ func (c *Client) waitForReply(id wamp.ID) (wamp.Message, error) {
 	var err error
 	timer := time.NewTimer(c.responseTimeout)
 	select {
-	case msg, ok = <-wait:
+	case msg, ok = <-wait.msgs:
 		timer.Stop()
 		if !ok {
 			// Return directly here, since awaitingReply entry already deleted.
@@ -1396,9 +1418,7 @@ func (c *Client) waitForReply(id wamp.ID) (wamp.Message, error) {
 	case <-c.Done():
 		err = ErrNotConn
 	}
-	c.sess.Lock()
-	delete(c.awaitingReply, id)
-	c.sess.Unlock()
+	c.forgetReply(id)
 
 	return msg, err
 }
@@ -1410,7 +1430,7 @@ func (c *Client) waitForReply(id wamp.ID) (wamp.Message, error) {
 // run() goroutine may be blocked waiting for a reply to be read from the
 // awaiting reply channel.
 func (c *Client) waitForReplyWithCancel(ctx context.Context, id wamp.ID, procedure string, progChan chan<- *wamp.Result) (wamp.Message, error) { //nolint:lll
-	var wait chan wamp.Message
+	var wait *replyWaiter
 	var ok bool
 	c.sess.Lock()
 	wait, ok = c.awaitingReply[id]
@@ -1423,7 +1443,7 @@ func (c *Client) waitForReplyWithCancel(ctx context.Context, id wamp.ID, procedu
 	var err error
 CollectResults:
 	select {
-	case msg, ok = <-wait:
+	case msg, ok = <-wait.msgs:
 		if !ok {
 			// Return here, since awaitingReply entry already deleted.
 			return nil, ErrNotConn
@@ -1454,7 +1474,7 @@ CollectResults:
 	waitCancel:
 		// Discard responses until ERROR or timeout
 		select {
-		case msg, ok = <-wait:
+		case msg, ok = <-wait.msgs:
 			if !ok {
 				timer.Stop()
 				return nil, err
@@ -1472,9 +1492,7 @@ CollectResults:
 		err = ErrNotConn
 	}
 	// All done with this call, so not waiting for more replies.
-	c.sess.Lock()
-	delete(c.awaitingReply, id)
-	c.sess.Unlock()
+	c.forgetReply(id)
 
 	return msg, err
 }
@@ -1985,7 +2003,7 @@ func (c *Client) runHandleInterrupt(msg *wamp.Interrupt) {
 }
 
 func (c *Client) runSignalReply(msg wamp.Message, requestID wamp.ID) {
-	var w chan wamp.Message
+	var w *replyWaiter
 	var ok bool
 	c.sess.Lock()
 	w, ok = c.awaitingReply[requestID]
@@ -1996,7 +2014,10 @@ func (c *Client) runSignalReply(msg wamp.Message, requestID wamp.ID) {
 		return
 	}
 	select {
-	case w <- msg:
+	case w.msgs <- msg:
+	case <-w.gone:
+		c.log.Println("Received", msg.MessageType(), requestID,
+			"that client is no longer waiting for")
 	case <-c.Done():
 	}
 }
